@@ -400,9 +400,59 @@ P_DEF = G.P(names=KEYS + ['p', 'div', 'x1', 'ul', 'em'], nameless=0.08, mentions
             sc=0.0, max_nodes=40)
 
 
+def estimate(defs, key, stack=()):
+    "upper estimate of the number of nodes the resolution of `key` produces (cycle cut like the library: a definition already on the stack stays an element)"
+    if key not in defs or key in stack or len(stack) > 8:
+        return 1
+
+    def size(script):
+        tree = M.interpret(script)
+
+        def cnt(nodes):
+            t = 0
+            for m in nodes:
+                r = m.item.get('r')
+                r = r if isinstance(r, int) else 1
+                if 'g' in m.item:
+                    own = 0
+                else:
+                    name = M.ser_value(m.item.get('n')) if m.item.get('n') else ''
+                    own = estimate(defs, name, stack + (key,)) if name in defs else 1
+                t += r * (own + cnt(m.children) * max(1, own if name_is_multi(m) else 1))
+            return t
+
+        def name_is_multi(m):
+            return False
+        return cnt(tree)
+    return min(size(defs[key]), 10 ** 9)
+
+
+def strip_repeats(script):
+    out = []
+    for it in script:
+        if isinstance(it, str):
+            out.append(it)
+        elif 'g' in it:
+            out.append({'g': strip_repeats(it['g']), 'r': None})
+        else:
+            d = dict(it)
+            d['r'] = None
+            out.append(d)
+    return out
+
+
+def build_table(ks, ds):
+    defs = dict(zip(ks, ds))
+    # legitimate work must stay far below the CPU watchdog: bound the estimated size of every resolution (map, not filter)
+    if max(estimate(defs, k) for k in defs) > 1500:
+        defs = {k: strip_repeats(d) for k, d in defs.items()}
+    if max(estimate(defs, k) for k in defs) > 1500:
+        defs = {k: d[:1] for k, d in defs.items()}
+    return {'user': {k: M.ser_script(d) for k, d in defs.items()}}
+
+
 def table_strategy():
-    return st.builds(lambda ks, ds: {'user': {k: M.ser_script(d) for k, d in zip(ks, ds)}},
-                     st.lists(st.sampled_from(KEYS), min_size=1, max_size=6, unique=True), st.lists(G.scripts(P_DEF), min_size=6, max_size=6))
+    return st.builds(build_table, st.lists(st.sampled_from(KEYS), min_size=1, max_size=6, unique=True), st.lists(G.scripts(P_DEF), min_size=6, max_size=6))
 
 
 def shard_tables(ctx, shard, nshards, n):
